@@ -132,7 +132,8 @@ def check_array(ctx, case):
     inp = list(ks) if how.startswith('list') else np.array(ks, dtype=object)
     if how.startswith('npmix'):
         # a list / tuple in which the elements that fit are numpy integer scalars and the others python integers
-        inp = [np.int64(k) if -(1 << 63) <= k < (1 << 63) and i % 3 != 2 else np.int32(k) if abs(k) < (1 << 31) else int(k) for i, k in enumerate(ks)]
+        inp = [np.uint64(k) if 0 <= k < (1 << 63) and i % 4 == 1 else np.int64(k) if -(1 << 63) <= k < (1 << 63) and i % 3 != 2 else np.int32(k) if abs(k) < (1 << 31) else int(k)
+               for i, k in enumerate(ks)]       # (int64 next to uint64 scalars promote to float64 in numpy)
         if how.startswith('npmix-tuple'):
             inp = tuple(inp)
     before = repr(inp)
